@@ -1,0 +1,60 @@
+//! Verification hooks (compiled only with `--cfg rustyyato_chess_verif`).
+//!
+//! They give an external checker a symbolic pre-state (a `Board` assembled from raw fields
+//! without validation), read access to the private fields, and entry points to private
+//! functions. Nothing here is reachable in a normal build.
+
+use chess_bitboard::{BitBoard, Color, File};
+
+use crate::{castle_rights::CastleRights, raw::RawBoard, Board, BoardValidationError, OptionalFile};
+
+/// All fields of a [`Board`], in plain types
+#[derive(Debug, Clone, Copy, PartialEq, Eq)]
+pub struct VerifParts {
+    pub zobrist: u64,
+    pub turn: Color,
+    pub castle_rights: u8,
+    pub enpassant: Option<File>,
+    pub half_move_clock: u16,
+    pub full_move_clock: u16,
+    pub pinned: BitBoard,
+    pub checkers: BitBoard,
+}
+
+impl Board {
+    #[allow(clippy::too_many_arguments)]
+    pub fn verif_from_raw(raw: RawBoard, parts: VerifParts) -> Self {
+        Self {
+            zobrist: parts.zobrist,
+            turn: parts.turn,
+            castle_rights: CastleRights::verif_from_bits(parts.castle_rights),
+            enpassant_target: OptionalFile::from(parts.enpassant),
+            half_move_clock: parts.half_move_clock,
+            full_move_clock: parts.full_move_clock,
+            pinned: parts.pinned,
+            checkers: parts.checkers,
+            raw,
+        }
+    }
+
+    pub fn verif_parts(&self) -> VerifParts {
+        VerifParts {
+            zobrist: self.zobrist,
+            turn: self.turn,
+            castle_rights: self.castle_rights.verif_bits(),
+            enpassant: self.ep(),
+            half_move_clock: self.half_move_clock,
+            full_move_clock: self.full_move_clock,
+            pinned: self.pinned,
+            checkers: self.checkers,
+        }
+    }
+
+    pub fn verif_validate(&self) -> Result<(), BoardValidationError> {
+        self.validate()
+    }
+
+    pub fn verif_update_pin_info(&mut self) {
+        self.update_pin_info()
+    }
+}
